@@ -265,7 +265,17 @@ class _JSONSerializer:
         separator = ": " if self.gap else ":"
         members = []
         for key in keys:
-            text = self.serialize(key, obj, obj.get(key))
+            if key in obj._getters or key in obj._setters:
+                # an accessor property: its value is what the getter returns
+                getter = obj._getters.get(key)
+                value = (
+                    self.call(getter, obj, [])
+                    if getter is not None and self.call is not None
+                    else None
+                )
+            else:
+                value = obj.get(key)
+            text = self.serialize(key, obj, value)
             if text is not None:
                 members.append(quote_json_string(key) + separator + text)
         return self.join("{", members, "}", stepback)
